@@ -1488,26 +1488,11 @@ func (a *Adversary) wrapLen(h uint64) bool {
 	if a.r.Intn(2) == 0 {
 		env, typ = ref.EnvC, ref.C
 	}
-	hdr := append([]byte{}, (&ref.Ref{Type: typ, Inst: inst, H: h, V: v, Hash: hash}).Bytes()...)
-	at := len(hdr) - len(hash) - 4
-	if at < 0 {
+	raw := mkWrapLen(func(x []byte) []byte { return a.sign(b, h, x) }, env, typ, b, inst, h, v, hash, byte(0xe0+a.r.Intn(32)), a.share(b, h))
+	if raw == nil {
 		return false
 	}
-	hdr[at], hdr[at+1], hdr[at+2], hdr[at+3] = byte(0xe0+a.r.Intn(32)), 0xff, 0xff, 0xff // little-endian length 0xffffffe0..ff
-	sg := (&ref.Sig{Id: b, Sig: a.sign(b, h, hdr)}).Builder()
-	var content []byte
-	if env == ref.EnvP {
-		content = (&protocol.PrepareContentBuilder{SignedHeader: protocol.BlockRefBuilderFromRaw(hdr), Sender: sg}).Build().Raw()
-	} else {
-		content = (&protocol.CommitContentBuilder{SignedHeader: protocol.BlockRefBuilderFromRaw(hdr), Sender: sg, Share: a.share(b, h)}).Build().Raw()
-	}
-	lb := &protocol.LeanhelixContentBuilder{}
-	if env == ref.EnvP {
-		lb.Message, lb.PrepareMessage = protocol.LEANHELIX_CONTENT_MESSAGE_PREPARE_MESSAGE, protocol.PrepareContentBuilderFromRaw(content)
-	} else {
-		lb.Message, lb.CommitMessage = protocol.LEANHELIX_CONTENT_MESSAGE_COMMIT_MESSAGE, protocol.CommitContentBuilderFromRaw(content)
-	}
-	a.sendRaw(b, n.Id, &interfaces.ConsensusRawMessage{Content: lb.Build().Raw()})
+	a.sendRaw(b, n.Id, raw)
 	return true
 }
 
@@ -1566,4 +1551,25 @@ func (a *Adversary) goodNV(h uint64) bool {
 		a.send(leader, n.Id, nv)
 	}
 	return true
+}
+
+// mkWrapLen builds a PREPARE / COMMIT whose signed header is in order in its fixed-size fields but whose block-hash
+// length field is 0xffffff00|lenByte, signed over exactly those bytes.
+func mkWrapLen(sign func([]byte) []byte, env ref.Env, typ ref.MT, signer string, inst, h, v uint64, hash []byte, lenByte byte, share []byte) *interfaces.ConsensusRawMessage {
+	hdr := append([]byte{}, (&ref.Ref{Type: typ, Inst: inst, H: h, V: v, Hash: hash}).Bytes()...)
+	at := len(hdr) - len(hash) - 4
+	if at < 0 || len(hash) == 0 {
+		return nil
+	}
+	hdr[at], hdr[at+1], hdr[at+2], hdr[at+3] = lenByte, 0xff, 0xff, 0xff // little-endian
+	sg := (&ref.Sig{Id: signer, Sig: sign(hdr)}).Builder()
+	lb := &protocol.LeanhelixContentBuilder{}
+	if env == ref.EnvP {
+		content := (&protocol.PrepareContentBuilder{SignedHeader: protocol.BlockRefBuilderFromRaw(hdr), Sender: sg}).Build().Raw()
+		lb.Message, lb.PrepareMessage = protocol.LEANHELIX_CONTENT_MESSAGE_PREPARE_MESSAGE, protocol.PrepareContentBuilderFromRaw(content)
+	} else {
+		content := (&protocol.CommitContentBuilder{SignedHeader: protocol.BlockRefBuilderFromRaw(hdr), Sender: sg, Share: share}).Build().Raw()
+		lb.Message, lb.CommitMessage = protocol.LEANHELIX_CONTENT_MESSAGE_COMMIT_MESSAGE, protocol.CommitContentBuilderFromRaw(content)
+	}
+	return &interfaces.ConsensusRawMessage{Content: lb.Build().Raw()}
 }
